@@ -329,6 +329,13 @@ func c10script(h c10hist) (string, string) {
 		fmt.Fprintf(&want, "range %d %d\n", len(ref.val), s)
 		b.WriteString("keys := 0\nfor k := range m {\n\tif _, ok := m[k]; ok {\n\t\tkeys++\n\t}\n}\nfmt.Println(\"keys\", keys)\n")
 		fmt.Fprintf(&want, "keys %d\n", len(ref.val))
+		// a range nested in a range over the same map, written over several lines and on one line (each loop has its
+		// own iterator whatever the layout), and two loops in sequence on one line
+		b.WriteString("pairs := 0\nfor k1, v1 := range m {\n\tfor k2, v2 := range m {\n\t\tif m[k1] == v1 && m[k2] == v2 {\n\t\t\tpairs++\n\t\t}\n\t}\n}\n")
+		b.WriteString("flat := 0\nfor k1, v1 := range m { for k2, v2 := range m { if m[k1] == v1 && m[k2] == v2 { flat++ } } }\n")
+		b.WriteString("seq := 0\nfor k1 := range m { _ = k1; seq++ }; for _, v2 := range m { _ = v2; seq += 10 }\n")
+		b.WriteString("fmt.Println(\"pairs\", pairs, flat, seq)\n")
+		fmt.Fprintf(&want, "pairs %d %d %d\n", len(ref.val)*len(ref.val), len(ref.val)*len(ref.val), 11*len(ref.val))
 	}
 	for _, o := range h.Ops {
 		if o.Del {
